@@ -94,6 +94,11 @@ func WorkDir() string {
 		os.Mkdir(filepath.Join(d, "dir"), 0o755)
 		os.Mkdir(filepath.Join(d, "mods"), 0o755)
 		os.WriteFile(filepath.Join(d, "mods", "m.jq"), []byte("def mf: 42;"), 0o644)
+		// modules that import each other, and one that includes itself
+		os.WriteFile(filepath.Join(d, "mods", "cyca.jq"), []byte(`import "cycb" as b; def f: 1;`), 0o644)
+		os.WriteFile(filepath.Join(d, "mods", "cycb.jq"), []byte(`import "cyca" as a; def g: 2;`), 0o644)
+		os.WriteFile(filepath.Join(d, "mods", "self.jq"), []byte(`include "self"; def h: 3;`), 0o644)
+		os.WriteFile(filepath.Join(d, "mods", "fan.jq"), []byte(`import "fan" as x; import "fan" as y; def k: 4;`), 0o644)
 	})
 	return workDir
 }
